@@ -59,14 +59,14 @@ _HD = "verif_kani_header"
 _hdr_fns = ["header::M2Header::parse", "header::M2Header::write", "common::M2Array::{parse,write}", "version::M2Version::from_header_version"]
 H("C13", "m2", _HD, "quick", "C13.a header: parse consumes the format's header size for the version/flag class, write(parse(b)) == b, parsed header is well formed",
   ["c13a_header_v256"], _hdr_fns,
-  "352 symbolic bytes behind the assigned magic and version; flag word: bytes 1-2 symbolic, bytes 0 and 3 (which hold the two layout bits 0x8 combiners / 0x8000000 blend override) assigned",
+  "352 symbolic bytes behind the assigned magic and version; flag word assigned (layout bits 0x8 combiners, 0x8000000 blend override as named; the 30 other bits all clear or all set)",
   "one header; version 256, layout bits clear",
   assumes=["texture_animation_lookup.count <= 1 000 000 (documented corruption workaround zeroes larger counts)"], stubs=[FMT])
 H("C13", "m2", _HD, "thorough", "C13.a header, the other version classes and the classes with optional arrays (combiner bit / blend-override bit set)",
   ["c13a_header_v260", "c13a_header_v264", "c13a_header_v272", "c13a_header_v274_legion",
    "c13a_header_v256_combiners_blendbit", "c13a_header_v260_blend", "c13a_header_v263_combiners_blend", "c13a_header_v264_combiners",
    "c13a_header_v272_combiners_blend", "c13a_header_v276_legion_combiners_blend"], _hdr_fns,
-  "as above with version and layout bits assigned as in the harness name (other bits of flag bytes 0/3 all clear or all set)",
+  "as above with version and layout bits assigned as in the harness name",
   "version in {256,260,263,264,272,274,276} x flag class",
   assumes=["texture_animation_lookup.count <= 1 000 000"], stubs=[FMT], timeout=2400)
 H("C13", "m2", _HD, "quick", "C13.a M2Header::new(v) is well formed (optional fields == those the format defines for v)",
@@ -206,7 +206,7 @@ _MD = "verif_kani_model"
 _mdl = ["model::M2Model::write", "model::M2Model::calculate_header_size", "header::M2Header::{new,write,parse}"]
 H("C13", "m2", _MD, "quick", "C13.e empty model: bytes written == calculate_header_size() == bytes the header parser consumes; version, flags, bounding volume kept",
   ["c13e_model_empty_vanilla", "c13e_model_empty_tbc", "c13e_model_empty_wotlk", "c13e_model_empty_cataclysm"], _mdl,
-  "flags (30 bits) and 5 header floats symbolic; version per harness", "model without any section",
+  "5 header floats symbolic; flags = all bits except the two layout bits; version per harness", "model without any section",
   assumes=["flag bits 0x8 and 0x8000000 clear (known finding KF-C13-model-layout-flags)"], stubs=[FMT])
 H("C13", "m2", _MD, "quick", "C13.e witness: empty WotLK model with USE_TEXTURE_COMBINERS; empty model with a Legion version number",
   ["c13e_model_layout_flags_witness"], _mdl, "concrete", "one input", stubs=[FMT], expect="witness:KF-C13-model-layout-flags")
